@@ -220,6 +220,8 @@ def gen_curve_item(w, m):
         if mode == "pt" and w.random() < 0.3:
             item["pt"] = w.choice([77.15, 194.65, 150.0])          # liquid-nitrogen / dry-ice traps
         item["pp"] = wg.logu(w, 1e-3, 1.0, 4) if mode == "pp" else None
+        if item["pp"] is not None and item["pp"] < 3e-3:
+            item["pp"] = 0.0          # ideal vacuum stated as a pressure: 0.0 is a value, not "absent" (no extra draw: the stream is unchanged)
     else:
         item["units"] = w.choice(["kg/(m2*h*kPa)", "GPU", "SI", None])
         scale = {"GPU": (1e-1, 1e5), "SI": (1e-11, 1e-5)}.get(item["units"], (1e-9, 1e3))
@@ -228,6 +230,8 @@ def gen_curve_item(w, m):
         mode = w.choice(["none", "none", "pp", "pt"])
         item["pt"] = round(T - w.uniform(40, 80), 2) if mode == "pt" else None
         item["pp"] = wg.logu(w, 1e-3, 1.0, 4) if mode == "pp" else None
+        if item["pp"] is not None and item["pp"] < 3e-3:
+            item["pp"] = 0.0          # ideal vacuum stated as a pressure: 0.0 is a value, not "absent" (no extra draw: the stream is unchanged)
     return item
 
 
